@@ -137,7 +137,7 @@ Definition scan_row (st : dataset) (ev : eview) (active : option term) (q : qpat
 Definition scan (st : dataset) (ev : eview) (active : option term) (q : qpat) (incoming : list mu) : list mu :=
   flat_map (scan_row st ev active q) incoming.
 
-(* ---- types.rs: Condition::evaluate_filter_with_ids (two-valued) ---- *)
+(* ---- types.rs: Condition::evaluate_filter_with_ids ---- *)
 Definition num_or_zero (s : term) : Z := match parse_int s with Some z => z | None => 0%Z end.
 (* compare_lexical *)
 Definition compare_lexical (op : cmpop) (l r : term) : bool :=
@@ -147,7 +147,40 @@ Definition compare_lexical (op : cmpop) (l r : term) : bool :=
   | _ => cmp_int op (num_or_zero l) (num_or_zero r)
   end.
 
-Fixpoint cond_eval (e : expr) (row : mu) : bool :=
+(* evaluate_filter_with_ids since 56f413c: three-valued (None = SPARQL's expression error: an unbound variable); `!`, `&&`, `||`
+   propagate errors by the SPARQL truth tables; a FILTER keeps a solution only when the value is Some true.
+   compare_lexical is total on bound values (an ordering comparison reads a non-number as 0). *)
+Fixpoint cond_eval3 (e : expr) (row : mu) : option bool :=
+  match e with
+  | ECmp op l r =>
+      match lookup row l with
+      | None => None
+      | Some a =>
+          match r with
+          | TV y => match lookup row y with None => None | Some b => Some (compare_lexical op a b) end
+          | TC c => Some (compare_lexical op a c)
+          end
+      end
+  | EAnd a b =>
+      match cond_eval3 a row, cond_eval3 b row with
+      | Some false, _ | _, Some false => Some false
+      | Some true, Some true => Some true
+      | _, _ => None
+      end
+  | EOr a b =>
+      match cond_eval3 a row, cond_eval3 b row with
+      | Some true, _ | _, Some true => Some true
+      | Some false, Some false => Some false
+      | _, _ => None
+      end
+  | ENot a => option_map negb (cond_eval3 a row)
+  end.
+Definition cond_eval (e : expr) (row : mu) : bool :=
+  match cond_eval3 e row with Some true => true | _ => false end.
+
+(* before 56f413c: two-valued, an unbound operand made a comparison false and `!` turned that into true
+   (finding C01-not-of-error; kept for the regression lemma) *)
+Fixpoint cond_eval_2v (e : expr) (row : mu) : bool :=
   match e with
   | ECmp op l r =>
       match lookup row l with
@@ -158,9 +191,9 @@ Fixpoint cond_eval (e : expr) (row : mu) : bool :=
           | TC c => compare_lexical op a c
           end
       end
-  | EAnd a b => cond_eval a row && cond_eval b row
-  | EOr a b => cond_eval a row || cond_eval b row
-  | ENot a => negb (cond_eval a row)
+  | EAnd a b => cond_eval_2v a row && cond_eval_2v b row
+  | EOr a b => cond_eval_2v a row || cond_eval_2v b row
+  | ENot a => negb (cond_eval_2v a row)
   end.
 
 (* ---- the three join executors ---- *)
@@ -222,7 +255,30 @@ Definition hash_join (L R : list mu) : list mu :=
       end
   end.
 
-(* ---- BIND (CONCAT branch): an unbound argument contributes the empty string; the target is overwritten ---- *)
+(* ---- BIND (CONCAT branch) since 1fdcd07: an argument that is an unbound variable makes the expression an error and the row
+   is kept WITHOUT binding the target; a row that already binds the target (it came in from a sibling group through input
+   propagation) is kept only if the existing value equals the computed one ---- *)
+Fixpoint econcat (args : list barg) (row : mu) : option term :=
+  match args with
+  | [] => Some EmptyString
+  | a :: r =>
+      match (match a with BV x => lookup row x | BC c => Some c end), econcat r row with
+      | Some s, Some t => Some (append s t)
+      | _, _ => None
+      end
+  end.
+Definition ebind (args : list barg) (v : var) (row : mu) : list mu :=
+  match econcat args row with
+  | None => [row]
+  | Some c =>
+      match lookup row v with
+      | Some old => if term_eqb old c then [row] else []
+      | None => [insert v c row]
+      end
+  end.
+
+(* before 1fdcd07: an unbound argument contributed the empty string and the target was overwritten
+   (findings C01-bind-arg-unbound, C01-bind-target-sibling; kept for the regression lemmas) *)
 Fixpoint concat_strs (args : list barg) (row : mu) : term :=
   match args with
   | [] => EmptyString
@@ -338,7 +394,7 @@ Fixpoint exec (st : dataset) (ev : eview) (active : option term) (p : pop) (inco
     | XStar _ pats =>
         fold_left (fun rows t => scan st ev active (t, GDefault) rows) pats incoming
     | XSubquery i s => nl_join incoming (finalize_subquery s (exec st ev active i [[]]))
-    | XBind i args v => map (bind_row args v) (exec st ev active i incoming)
+    | XBind i args v => flat_map (ebind args v) (exec st ev active i incoming)
     | XValues vs rows => nl_join incoming (map (values_row vs) rows)
     end
   end.
